@@ -12,8 +12,9 @@ World configurations (each searched separately; a witness names its cfg):
   shared        as solo plus a sync region-level StartPingCheck subscriber (shares the Event with the async handler).
                 Peer packets are pings only (the chat half would repeat cfg solo).
   prehandshake  circuit left as open_circuit() creates it (is_alive=False: UseCircuitCode still in flight); no peer
-                packets, depth-1.  The statement says "live circuit" only for the id clause, so whether its send clauses
-                cover this phase is open -> violations carry their own site (..._attempt_resends:circuit-not-alive).
+                packets.  A regular, asserted cfg: reliable sends on a not-yet-alive circuit are retransmitted and fail at
+                budget like any other (fixed in repo 3009fa0); its cadence/budget clauses keep their own site
+                (..._attempt_resends:circuit-not-alive), the narrowest name of where that went wrong.
 
 Alphabet (events are tuples; the last field of R/AP/AA is the deviation tag):
   ("R", p, kind, rel, resent, defer, dev)
@@ -31,7 +32,15 @@ Alphabet (events are tuples; the last field of R/AP/AA is the deviation tag):
         ids = any non-empty subset of the client's outstanding reliable ids (default), or (while something is
         outstanding) the newest issued id that is not outstanding [dev], or (AP only) the id the client will issue
         next [dev]
+  ("AB", body, appendix, dev)  ONE PacketAck datagram using both forms at once: ids in its Packets blocks and ids
+        appended after its body (ACK flag); every pair of subsets of the outstanding ids with a non-empty appendix:
+        appendix-only (the body then holds one never-issued filler id) [dev], disjoint split (default), overlapping [dev]
   ("SR",) client circuit.send_reliable(ChatFromViewer), at most MAX_SR per history
+  ("SP", which, rel, 1)  client circuit.send() of a Message that already carries a packet_id, at most MAX_SP per history
+        [dev]: which = zero | last (newest issued id) | last-1 | last+50 -> Message("ChatFromViewer", packet_id=N),
+        reliable flag or not (non-synthetic, so not tracked for resends: only the id / one-datagram clauses apply);
+        which = echo -> the newest delivered peer packet's own Message object (packet_id = the peer's id) is turned
+        around (direction OUT) and sent back, as a subscriber might.  Not offered in cfg shared.
   ("SU",) client circuit.send(ChatFromViewer) unreliable, at most MAX_SU per history
   ("T", "short"|"past"|"long")  virtual time advances by interval/3 | interval+0.5 | (budget-1)*interval seconds
         (interval = circuit.resend_every, budget = ReliableResendInfo.tries_left default; both read from the code);
@@ -68,7 +77,8 @@ once" (the listed mutant "track_reliable checks after append" is invisible other
 because the statement does not fix the poll granularity.  (3) The explorer never extends a violating history.  So per cfg a first
 search (all clauses, to the quick horizon) names the (clause, site) pairs failing on this tree, and a second search runs to
 the full horizon with exactly those pairs muted (all other clauses armed), so histories *behind* a known violation are
-still explored; muted pairs are listed in coverage_extra.  A pair that first shows up in the second search is reported
+still explored; muted pairs are listed in coverage_extra["muted_in_second_pass"] -- empty ({}) on a green tree, where
+the second search (thorough only) is simply the all-clauses search continued to the full horizon.  A pair that first shows up in the second search is reported
 but (as always) not extended.  (4) Alphabet economies listed
 above (one kind out of order, one duplicate carrier, MAX_SR/MAX_SU, probe tick) keep depth 7 inside the budget.
 (5) HippoClientProtocol.__init__ re-parses message.xml per instance; worlds share one parsed (read-only) table.
@@ -85,7 +95,8 @@ from hippolyzer.lib.base.datatypes import UUID
 from hippolyzer.lib.base.helpers import create_logged_task
 from hippolyzer.lib.base.message.circuit import ReliableResendInfo
 from hippolyzer.lib.base.message.message import Block, Message
-from hippolyzer.lib.base.network.transport import AbstractUDPTransport
+from hippolyzer.lib.base.message.msgtypes import PacketFlags
+from hippolyzer.lib.base.network.transport import AbstractUDPTransport, Direction
 from hippolyzer.lib.client.hippo_client import ClientSettings, HippoClient, HippoClientProtocol, HippoClientSession
 
 from hmc import explore, refwire
@@ -105,7 +116,7 @@ CARRIER_BASE = 100
 F_ZERO, F_REL, F_RESENT, F_ACK = 0x80, 0x40, 0x20, 0x10
 EPS = 1e-6
 POLL_SLACK = 0.5  # HippoClient._attempt_resends sleeps 0.5 s between polls; lateness up to one poll is not a defect
-MAX_SR, MAX_SU = 2, 1
+MAX_SR, MAX_SU, MAX_SP = 2, 1, 1
 QUICK_DEPTH = 5
 BUDGET = next(f.default for f in dataclasses.fields(ReliableResendInfo) if f.name == "tries_left")
 NAME = {"chat": "ChatFromSimulator", "ping": "StartPingCheck"}
@@ -266,6 +277,9 @@ class World:
         self.cursor = 0
         self.log_cursor = 0
         self.n_sr = 0
+        self.n_sp = 0
+        self.last_rx = None      # newest Message object handed to the session-level "*" subscriber
+        self.echo_msg = None     # newest delivered peer packet (id 1..3) not yet sent back
         self.dup_receipts = 0
         self.retransmissions = 0
         self.completions = 0
@@ -273,19 +287,21 @@ class World:
     def _make_sub(self, level, which):
         def _sub(msg):
             self.log.append((level, which, msg.name, msg.packet_id))
+            if level == "session" and which == "*":
+                self.last_rx = msg
         return _sub
 
 
 class Harness:
     copyable = False
 
-    def __init__(self, cfg: str = "solo", mute=(), max_sr: int = MAX_SR, max_su: int = MAX_SU):
+    def __init__(self, cfg: str = "solo", mute=(), max_sr: int = MAX_SR, max_su: int = MAX_SU, max_sp: int = MAX_SP):
         assert cfg in ("solo", "shared", "prehandshake")
         self.cfg = cfg
         self.kinds = {"solo": ("chat", "ping"), "shared": ("ping",), "prehandshake": ()}[cfg]
         self.site_resend = SITE_RESEND if cfg != "prehandshake" else SITE_RESEND_NOT_ALIVE
         self.mute = set(tuple(m) for m in mute)
-        self.max_sr, self.max_su = max_sr, max_su
+        self.max_sr, self.max_su, self.max_sp = max_sr, max_su, max_sp
 
     def fresh(self) -> World:
         return World(self.cfg)
@@ -338,6 +354,22 @@ class Harness:
             evs.append(("AA", 0, ids, dev))
             if dup_carrier is not None and not dev and len(ids) == n:
                 evs.append(("AA", dup_carrier, ids, 1))
+        # both ack forms in ONE PacketAck datagram: every (body, appendix) pair of subsets of the outstanding ids with a
+        # non-empty appendix -- appendix-only, disjoint splits, overlapping; (body-only is AP above)
+        subsets = [tuple(outstanding[i] for i in range(n) if mask >> i & 1) for mask in range(0, 1 << n)]
+        for body in subsets:
+            for app in subsets[1:]:
+                disjoint_split = bool(body) and not set(body) & set(app)
+                evs.append(("AB", body, app, 0 if disjoint_split else 1))
+        # sends of a Message that already carries a packet_id
+        if w.n_sp < self.max_sp and self.cfg != "shared":
+            last = w.last_issued
+            whiches = ["zero"] + (["last"] if last is not None else []) + (["last-1"] if last else []) + ["last+50"]
+            for which in whiches:
+                for rel in (0, 1):
+                    evs.append(("SP", which, rel, 1))
+            if w.echo_msg is not None:
+                evs.append(("SP", "echo", 1 if int(w.echo_msg.send_flags) & F_REL else 0, 1))
         if w.n_sr < self.max_sr:
             # ack for the id the client will issue next, then (maybe) the send itself
             evs.append(("AP", (w.circuit.packet_id_base if w.last_issued is None else w.last_issued + 1,), 1))
@@ -356,7 +388,7 @@ class Harness:
         return max((i for i in w.issued if i not in pending), default=None)
 
     def deviation(self, ev) -> int:
-        return int(ev[-1]) if ev[0] in ("R", "AP", "AA") else 0
+        return int(ev[-1]) if ev[0] in ("R", "AP", "AA", "AB", "SP") else 0
 
     # ---- canonical state ----------------------------------------------------------------------------------
     def canon(self, w: World):
@@ -373,7 +405,9 @@ class Harness:
                       ((len(r["tx"]), round(now - r["tx"][-1], 4)) if r["status"] == "pending" else ())
                       for r in w.rsends)
         return (tuple(c.seen_reliable), c.packet_id_base, unacked, c.is_alive, ready, timers,
-                tuple(sorted(w.peer.items())), w.max_peer, sends, w.n_sends - w.n_sr, w.n_sr, w.last_issued,
+                tuple(sorted(w.peer.items())), w.max_peer, sends, w.n_sends - w.n_sr, w.n_sr, w.n_sp,
+                (w.echo_msg.name, int(w.echo_msg.send_flags) & F_REL) if w.echo_msg is not None else None,
+                w.last_issued,
                 self.stale_id(w), tuple(sorted(w.ack_debt)), tuple(sorted(w.ping_owed.items())),
                 tuple(sorted(w.ping_seen.items())))
 
@@ -441,12 +475,13 @@ class Harness:
             fresh_tx.append(d)
         return fresh_tx
 
-    def check_futures(self, w: World, form: str = ""):
+    def check_futures(self, w: World):
         now = w.loop.time()
         for r in w.rsends:
             f = r["fut"]
             if r["status"] == "acked" and not r.get("checked"):
                 r["checked"] = True
+                form = r.get("form", "")
                 ok = f.done() and not f.cancelled() and f.exception() is None
                 if not ok:
                     state = "pending" if not f.done() else repr(f.exception() if not f.cancelled() else "cancelled")
@@ -518,10 +553,12 @@ class Harness:
             w.ping_seen.clear()
 
     # ---- transitions ------------------------------------------------------------------------------------------
-    def deliver(self, w: World, data: bytes, pid: int, name: str, rel: int, first: bool, acks=(), form: str = ""):
+    def deliver(self, w: World, data: bytes, pid: int, name: str, rel: int, first: bool, acks=(), form: str = "",
+                forms: Optional[Dict[int, str]] = None):
         for r in w.rsends:
             if r["status"] == "pending" and r["id"] in acks:
                 r["status"] = "acked"
+                r["form"] = (forms or {}).get(r["id"], form)
                 w.completions += 1
         self.account_log(w)
         n0 = len(w.log)
@@ -529,7 +566,7 @@ class Harness:
             w.proto.datagram_received(data, ADDR)
         except Exception as e:  # the statement gives no licence to drop a well-formed datagram with an exception
             self.bad(w, "no-exception", "HippoClientProtocol.datagram_received", f"{name} id {pid}: raised {e!r}")
-        self.check_futures(w, form)
+        self.check_futures(w)
         new = w.log[n0:]
         w.log_cursor = len(w.log)
         expect = 1 if (not rel or first) else 0
@@ -570,7 +607,10 @@ class Harness:
             w.max_peer = max(w.max_peer, p)
             flags = (F_REL if rel else 0) | (F_RESENT if resent else 0)
             data = peer_datagram(NAME[k], p, flags, text=f"m{p}", ping=p)
+            w.last_rx = None
             self.deliver(w, data, p, NAME[k], rel, first)
+            if w.last_rx is not None and w.last_rx.packet_id == p:
+                w.echo_msg = w.last_rx
             quiescent = not defer
         elif kind in ("AP", "AA"):
             ids = tuple(ev[1] if kind == "AP" else ev[2])
@@ -591,6 +631,47 @@ class Harness:
                 w.dup_receipts += 1
                 data = peer_datagram(NAME[k], p, F_REL | F_RESENT, acks=ids, text=f"m{p}", ping=p)
                 self.deliver(w, data, p, NAME[k], 1, False, acks=ids, form="appended-on-duplicate")
+        elif kind == "AB":
+            # one PacketAck datagram using both forms at once: ids in its Packets blocks AND ids appended after the body
+            body, app = tuple(ev[1]), tuple(ev[2])
+            w.carriers += 1
+            pid = CARRIER_BASE + w.carriers
+            filler = (w.last_issued if w.last_issued is not None else 0) + 1000  # a PacketAck needs >= 1 block
+            data = peer_datagram("PacketAck", pid, 0, acks=app, ids=body or (filler,))
+            forms = {i: "PacketAck+appendix:body" for i in body}
+            forms.update({i: "PacketAck+appendix:appended" for i in app if i not in body})
+            forms.update({i: "PacketAck+appendix:both" for i in app if i in body})
+            self.deliver(w, data, pid, "PacketAck", 0, True, acks=body + app, forms=forms)
+        elif kind == "SP":
+            # client sends a Message object that already carries a packet_id (Message(..., packet_id=N), or a received
+            # message turned around by a subscriber); it must leave with a fresh sequential id like any other send
+            _, which, rel, _dev = ev
+            w.n_sp += 1
+            site = f"Circuit.send:preset-id-{which}"
+            if which == "echo":
+                msg = w.echo_msg
+                w.echo_msg = None
+                msg.direction = Direction.OUT
+                msg.send_flags = PacketFlags(int(msg.send_flags) & F_REL)
+                preset = msg.packet_id
+            else:
+                last = w.last_issued
+                preset = {"zero": 0, "last": last, "last-1": (last or 0) - 1, "last+50": (last or 0) + 50}[which]
+                msg = Message(
+                    "ChatFromViewer",
+                    Block("AgentData", SessionID=w.session.id, AgentID=w.session.agent_id),
+                    Block("ChatData", Message=f"p{w.n_sp}", Channel=0, Type=1),
+                    packet_id=preset, flags=PacketFlags.RELIABLE if rel else PacketFlags(0),
+                )
+            try:
+                w.circuit.send(msg)
+            except Exception as e:
+                self.bad(w, "send-transmits", site, f"Message with preset packet_id {preset}: send raised {e!r}")
+            sent = self.drain_out(w)
+            if len(sent) != 1 or bool(sent[0]["flags"] & F_REL) != bool(rel) or sent[0]["flags"] & F_RESENT:
+                self.bad(w, "send-transmits", site,
+                         f"Message with preset packet_id {preset}: expected exactly one datagram, reliable={bool(rel)}, "
+                         f"got {[(d['name'], d['id'], hex(d['flags'])) for d in sent]}")
         elif kind in ("SR", "SU"):
             w.n_sends += 1
             reliable = kind == "SR"
@@ -636,7 +717,9 @@ def run(run: Run):
     run.rule = (
         "explicit-state BFS over {peer datagram id 1..3 x chat|ping x reliable|unreliable x RESENT x defer-tasks, peer acks "
         "(PacketAck | appended, on a fresh packet or on a duplicate) for every non-empty subset of outstanding ids or one stale/"
-        "future id, client send_reliable / send, Tick short|past|long} on the real HippoClientProtocol + Session + Region + "
+        "future id, PacketAck datagrams carrying body ids AND appended ids (every body/appendix pair of subsets), client "
+        "send_reliable / send / send of a Message with a preset packet_id (0, last, last-1, last+50, a received message sent "
+        "back), Tick short|past|long} on the real HippoClientProtocol + Session + Region + "
         "Circuit + resend task under a virtual loop/clock; states deduplicated on (seen_reliable, unacked table with tries "
         "and ages, packet_id_base, loop ready/timer phases, model); non-trivial = distinct states whose history contains a "
         "repeated receipt of a reliable id, a retransmission by the client, or a completed reliable send")
@@ -656,16 +739,16 @@ def run(run: Run):
         "'solo' (region-level StartPingCheck Event holds only the built-in async handler; chat+ping alphabet) and "
         "'shared' (a sync region-level StartPingCheck subscriber shares that Event; ping-only alphabet); plus "
         "'prehandshake' (circuit left as open_circuit() creates it, is_alive=False, i.e. while UseCircuitCode is in "
-        "flight; no peer packets, depth-1): its violations carry the site "
-        f"{SITE_RESEND_NOT_ALIVE!r} because the statement's wording ('live circuit') may exclude that phase")
+        f"flight; no peer packets; asserted like the others, overdue-clauses carry the site {SITE_RESEND_NOT_ALIVE!r}); "
+        f"at most {MAX_SP} send of a Message with a preset packet_id per history")
     muted_all = {}
     for cfg in ("solo", "shared", "prehandshake"):
         n0, keys0 = len(run.violations), dict(run._viol_keys)
-        d = depth if cfg != "prehandshake" else depth - 1
+        d = depth
         # pass 1 (all clauses) runs to the quick horizon: it names the (clause, site) pairs that fail on this tree.
         # The explorer never extends a violating history, so pass 2 re-explores to the full horizon with exactly those
         # pairs muted (every other clause stays armed): what lies *behind* a known violation is still searched.
-        d1 = min(d, QUICK_DEPTH if cfg != "prehandshake" else QUICK_DEPTH - 1)
+        d1 = min(d, QUICK_DEPTH)
         explore.bfs(run, Harness(cfg), depth=d1, dev_bound=devb, label=f"cfg={cfg} all-clauses ")
         found = sorted(k for k, n in run._viol_keys.items() if n > keys0.get(k, 0))
         if found or d > d1:
